@@ -20,40 +20,57 @@ LEVEL = "other"
 BUDGET = {"quick": 200, "thorough": 1800}
 EXPLANATION = (
     "The real optimisation functions are executed on every graph of a bounded grammar: N nodes in topological order, each a task "
-    "(f_j, deps...), a task with a list argument, a task with a repeated dependency, a task with a nested sub-task, a data literal or an "
-    "alias (value is another key); every subset of edges to earlier nodes; every requested-key subset (keys 'k0', ('t', 1), 'k2', ...). "
-    "Task functions build tuples (j, *args), so a key's value is the expression tree below it with the data literals as leaves. The "
-    "expected value of every key is computed by a reference evaluator from the node description (no dask code); the optimised graph is "
-    "evaluated with dask.core.get and each requested value is compared with e.equal, i.e. z3 is asked whether the two trees are equal "
-    "for ALL leaf values. Leaves are symbolic ints: unbounded in the task-spec obligations (never hashed there), range [0,1] in the "
-    "legacy obligations where dask hashes every literal (membership test against the key set), which concretises them. For fuse the "
-    "four tuning parameters ave_width, max_width, max_height, max_depth_new_edges are symbolic ints in [0,4] passed explicitly: the "
-    "solver forks exactly on the comparisons fuse makes ((num_nodes + fudge) / height <= ave_width is kept as an exact rational), so "
-    "every reachable behaviour over that parameter box is covered; rename_keys in {True, False, custom callable (proposes an existing "
-    "key, colliding fresh names, or None)}. Asserted per optimisation: (a) every requested key is in the returned graph, (b) its value equals the reference value, "
-    "(c) a returned dependencies dict has the returned graph's keys and per key the dependencies recomputed with get_dependencies "
-    "(as multisets when lists are returned, as sets otherwise). GraphNode.fuse: a chosen subset of nodes with one output is fused, the "
-    "fused task replaces the output node and all keys keep their values; >1 outputs must raise ValueError. substitute: every dependency "
-    "of a chosen node is left / mapped to itself / replaced by its GraphNode / renamed to a fresh key that aliases it; values kept. "
-    "Every path is replayed natively; e2e witnesses evaluate the optimised graph with the synchronous scheduler dask.get.")
+    "(f_j, deps...), a data literal or an alias (value is another key); every subset of edges to earlier nodes; every alias target; one "
+    "writing style per graph for its tasks (plain / dependencies inside a list argument / first dependency repeated / first dependency "
+    "inside a nested sub-task); requested-key subsets (keys 'k0', ('t', 1), 'k2', ...); both dict insertion orders where the code iterates "
+    "over the dict. Task functions build tuples (j, *args), so a key's value is the expression tree below it with the data literals as "
+    "leaves. The expected value of every key is computed by a reference evaluator from the node description (no dask code); the optimised "
+    "graph is evaluated with dask.core.get and each requested value is compared with e.equal, i.e. z3 is asked whether the two trees are "
+    "equal for ALL leaf values. Leaves are symbolic ints: one unbounded variable per leaf in the task-spec obligations (never hashed "
+    "there); in the legacy obligations dask hashes every literal (membership test against the key set), which concretises it, so the "
+    "leaves are v + 10*j with ONE shared symbolic offset v in [0,1]. For fuse the four tuning parameters ave_width, max_width, max_height, "
+    "max_depth_new_edges are symbolic ints in [0,4] passed explicitly: the solver forks exactly on the comparisons fuse makes "
+    "((num_nodes + fudge) / height <= ave_width is kept as an exact rational), so every reachable behaviour over that parameter box is "
+    "covered; rename_keys in {True, False, custom callable (proposes an existing key, colliding fresh names, or None)}. Asserted per "
+    "optimisation: (a) every requested key is in the returned graph, (b) its value equals the reference value, (c) a returned "
+    "dependencies dict has the returned graph's keys and per key the dependencies recomputed with get_dependencies (as multisets when "
+    "lists are returned, as sets otherwise). inline: every key of the graph is requested afterwards. GraphNode.fuse: a chosen subset of "
+    "nodes with one output is fused, the fused task replaces the output node, inner nodes nothing else needs are dropped, all remaining "
+    "keys keep their values; >1 outputs must raise ValueError. substitute: every dependency of a chosen node is left / mapped to itself / "
+    "replaced by its GraphNode / renamed to a fresh key holding its node (a dependency nobody else uses is then dropped); values kept. "
+    "name_clash: a chain a -> b plus an unrelated key whose NAME is the one the default renamers give to the fused chain. tuplearg_*: "
+    "legacy tasks holding a dependency inside a non-call tuple argument (f, (dep, 7)), which dask.get evaluates elementwise (the "
+    "reference evaluator's reading is checked against dask.core.get on the original graph). Every path is replayed natively; e2e "
+    "witnesses evaluate the optimised graph with the synchronous scheduler dask.get.")
 ASSUMPTIONS = [
     "graph shapes, requested subsets and option flags are solver-enumerated choice variables (bounded exhaustive); the symbolic content is the "
     "leaf values and fuse's four integer parameters",
     "dask.optimization's global name `int` is shimmed for the symbolic run only (int(ave_width - 1) must keep the proxy); natively replayed unpatched",
-    "values of the optimised graph are observed with dask.core.get (as the property states); values of the original graph come from the reference evaluator",
+    "values of the optimised graph are observed with dask.core.get (as the property states), which executes the whole returned graph; values of "
+    "the original graph come from the reference evaluator",
+    "`dependencies`, when supplied, is the exact dependency multiset/set of the graph as written (the documented precondition)",
 ]
 STUBS = ["dask.optimization.int -> symx ShimInt (symbolic run only)"]
-ENUM = ["node kinds, edge bits, alias targets, requested subset, rename_keys mode, dependencies=None/given, inline key subset, fast-function bits, "
-        "fused subset, substitution modes", "leaf values of legacy graphs (hashed by dask => concretised, range [0,1])"]
-OUTSIDE = ["graphs with more nodes than the bound", "float ave_width / None (derived) max_width, max_depth_new_edges", "SubgraphCallable, Dict/Set/Tuple containers and kwargs in tasks",
-           "minimality of cull / quality of fusion (never compared structurally)", "GraphNode.key attribute of returned nodes",
-           "mixed legacy/GraphNode graphs in fuse/inline_functions", "block_fusion nodes, futures (keys absent from the graph)"]
+ENUM = ["node kinds, edge bits, alias targets, task writing style, requested subset, (rename_keys, dependencies given?, dict order) combinations, inline key "
+        "subset, fast-function bits, fused subset and argument order, substitution modes, name forms",
+        "the shared leaf offset of legacy graphs (hashed by dask => concretised, range [0,1])"]
+OUTSIDE = ["graphs with more nodes than the bound", "float ave_width / None (derived) max_width, max_depth_new_edges", "SubgraphCallable, Dict/Set containers and kwargs in tasks",
+           "minimality of cull / quality of fusion (never compared structurally; which tasks get fused is not judged)", "GraphNode.key attribute of returned nodes",
+           "mixed legacy/GraphNode graphs in fuse/inline_functions", "block_fusion nodes, futures (keys absent from the graph)",
+           "fuse/inline with a `dependencies` argument that disagrees with the graph"]
 BOUNDS = {
-    "quick": dict(nodes="cull, inline, inline_functions, fuse_linear_task_spec, resolve_aliases, GraphNode.fuse, substitute: N<=3 full grammar; fuse_linear, fuse: "
-                  "N<=3 full grammar and N=4 with node 0 a literal and task/alias nodes", leaves="legacy [0,1] (concretised), task-spec unbounded",
+    "quick": dict(nodes="N=3 with kinds task/literal/alias for every optimisation (styles: cull plain, N=2 list+nested; inline plain+list+nested; inline_functions "
+                  "plain+nested; fuse_linear plain+repeated; fuse plain, repeated; fuse_linear_task_spec, substitute Task+List+nested; node_fuse Task+nested; "
+                  "resolve_aliases Task); N=4 with node 0 a literal and nodes 1-3 tasks (all edge and requested subsets) for fuse and fuse_linear",
+                  options="(rename_keys, dependencies, dict order) in {(True, None, fwd), (False, lists, rev), (custom, None, rev)}; inline: only keys with a dependent "
+                  "are offered for inlining, (inline_constants, dependencies) in 4 combinations; inline_functions: fast bit enumerated for tasks that are neither "
+                  "requested nor sinks (others always listed as fast), (inline_constants, dependencies) in {(False, None), (True, sets)}",
+                  leaves="legacy: shared offset in [0,1] (concretised); task-spec: unbounded",
                   fuse_params="ave_width, max_width, max_height, max_depth_new_edges symbolic in [0,4]"),
-    "thorough": dict(nodes="N<=4 full grammar, N=5 task/alias/literal for fuse, fuse_linear, cull, fuse_linear_task_spec, resolve_aliases", leaves="legacy [0,1], task-spec unbounded",
-                     fuse_params="symbolic in [0,5]"),
+    "thorough": dict(nodes="quick plus: all styles at N=3 with the full option product for fuse/fuse_linear; N=4 task/literal/alias for every optimisation (requested "
+                     "subsets reduced to empty/singletons/all for inline_functions, fuse_linear, fuse); N=5 with node 0 a literal and nodes 1-4 tasks for fuse, "
+                     "fuse_linear, fuse_linear_task_spec (requested: empty/singletons/all)",
+                     leaves="as quick", fuse_params="symbolic in [0,5]"),
 }
 
 KEYS = ["k0", ("t", 1), "k2", "k3", "k4", "k5"]
@@ -88,7 +105,8 @@ def gen(e, N, kinds, leaf_hi, styles=None, fixed=None):
     """nodes: list of (kind, deps, leaf); kinds lower-case = legacy, upper-case = task-spec objects.
     kinds: base kinds out of task / data literal / alias.  styles: how the task nodes of this graph are written: plain (t), with
     their dependencies inside a list argument (l), with the first dependency repeated (u), with the first dependency wrapped in a nested
-    sub-task (n); one style per graph, applied to every task node it is applicable to."""
+    sub-task (n), with the first dependency inside a NON-CALL tuple argument (dep, 7) (p); one style per graph, applied to every task
+    node it is applicable to."""
     nodes = []
     base = None
     style = e.pick("style", styles) if styles else None
@@ -123,6 +141,11 @@ def gen(e, N, kinds, leaf_hi, styles=None, fixed=None):
                 nodes[j] = (style, deps, leaf)
                 applied = True
         e.assume(applied)           # otherwise the graph coincides with the plain style
+    if styles and "p" in styles:
+        # derived model variable: 1 iff some task has a non-call tuple argument that contains a key of the graph
+        computed = int(any(nd[0] == "p" for nd in nodes))
+        tr = e.int("tuple_ref", 0, 1)
+        e.assume(lambda: tr == computed)
     return nodes
 
 
@@ -151,6 +174,8 @@ def mk_node(j, node, key=None):
         return (FUNCS[j], dk[0]) + tuple(dk)
     if kind == "n":
         return (FUNCS[j], (G, dk[0])) + tuple(dk[1:])
+    if kind == "p":
+        return (FUNCS[j], (dk[0], 7)) + tuple(dk[1:])
     if kind == "T":
         return Task(k, FUNCS[j], *[TaskRef(d) for d in dk])
     if kind == "D":
@@ -197,6 +222,9 @@ def ref_values(nodes):
             vals.append((j, dv[0]) + tuple(dv))
         elif kind in "nN":
             vals.append((j, (99, dv[0])) + tuple(dv[1:]))
+        elif kind == "p":
+            # dask.get evaluates a non-call tuple argument elementwise (keys inside it are looked up)
+            vals.append((j, (dv[0], 7)) + tuple(dv[1:]))
     return vals
 
 
@@ -239,6 +267,10 @@ RENAME = (True, False, custom_renamer)
 def check_values(e, new, nodes, req, what):
     """(a) requested keys present, (b) their values equal the reference values; returns the observation"""
     want = ref_values(nodes)
+    if any(nd[0] == "p" for nd in nodes):
+        # the reference evaluator's reading of tuple arguments is dask.core.get's own reading of the ORIGINAL graph
+        orig = C.get(build(nodes), [KEYS[j] for j in range(len(nodes))])
+        e.check(lambda: e.equal(list(orig), want), f"{what}: reference evaluator disagrees with dask.core.get on the original graph")
     for j in req:
         e.check(KEYS[j] in new, f"{what}: requested key {KEYS[j]!r} is missing from the returned graph (keys {sorted(map(repr, new))})")
     got = ()
@@ -290,6 +322,11 @@ def _with_e2e(name, setup, run, apply_native, patches=None, every=17):
     return Obligation(name, setup, run, patches=patches, e2e=e2e, e2e_every=every)
 
 
+def _name(fn, styles):
+    """obligation family: graphs with a non-call tuple argument holding a key get their own name prefix"""
+    return ("tuplearg_" if "p" in styles else "") + fn
+
+
 def _tag(N, styles, fixed=None, extra=""):
     s = f"N={N},styles={''.join(styles)}"
     if fixed:
@@ -324,7 +361,7 @@ def mk_cull(N, styles, fixed=None, req="all"):
         obs = check_values(e, new, nodes, req, "cull")
         return obs, check_depmap(e, new, deps, "cull")
 
-    return _with_e2e(f"cull[{_tag(N, styles, fixed)}]", setup, run, lambda nodes, req: (call(nodes, req)[0], nodes, req))
+    return _with_e2e(f"{_name('cull', styles)}[{_tag(N, styles, fixed)}]", setup, run, lambda nodes, req: (call(nodes, req)[0], nodes, req))
 
 
 def mk_inline(N, styles, fixed=None, opts=((True, None), (False, None), (True, "list"), (False, "set")), sinks=False):
@@ -347,7 +384,7 @@ def mk_inline(N, styles, fixed=None, opts=((True, None), (False, None), (True, "
         # inline takes no output keys and deletes nothing: every key may be requested afterwards
         return check_values(e, new, nodes, list(range(N)), "inline")
 
-    return _with_e2e(f"inline[{_tag(N, styles, fixed)}]", setup, run, lambda *a: (call(*a), a[0], list(range(N))))
+    return _with_e2e(f"{_name('inline', styles)}[{_tag(N, styles, fixed, ',sinks' if sinks else '')}]", setup, run, lambda *a: (call(*a), a[0], list(range(N))))
 
 
 def mk_inline_functions(N, styles, fixed=None, opts=((False, None), (True, "set")), req="all"):
@@ -377,11 +414,11 @@ def mk_inline_functions(N, styles, fixed=None, opts=((False, None), (True, "set"
         new = call(nodes, rq, fast, gfast, ic, dm)
         return check_values(e, new, nodes, rq, "inline_functions")
 
-    return _with_e2e(f"inline_functions[{_tag(N, styles, fixed)}]", setup, run, lambda *a: (call(*a), a[0], a[1]))
+    return _with_e2e(f"{_name('inline_functions', styles)}[{_tag(N, styles, fixed)}]", setup, run, lambda *a: (call(*a), a[0], a[1]))
 
 
 # (index into RENAME, dependencies mode, dict insertion order reversed)
-FUSE_OPTS_Q = ((0, None, False), (1, "list", True), (2, None, True), (2, "list", False))
+FUSE_OPTS_Q = ((0, None, False), (1, "list", True), (2, None, True))
 FUSE_OPTS_T = tuple((r, d, o) for r in range(3) for d in (None, "list") for o in (False, True))
 
 
@@ -402,7 +439,7 @@ def mk_fuse_linear(N, styles, fixed=None, opts=FUSE_OPTS_Q, req="all"):
         obs = check_values(e, new, nodes, rq, "fuse_linear")
         return obs, check_depmap(e, new, deps, "fuse_linear")
 
-    return _with_e2e(f"fuse_linear[{_tag(N, styles, fixed, ',req=' + req)}]", setup, run, lambda *a: (call(*a)[0], a[0], a[1]))
+    return _with_e2e(f"{_name('fuse_linear', styles)}[{_tag(N, styles, fixed, ',req=' + req)}]", setup, run, lambda *a: (call(*a)[0], a[0], a[1]))
 
 
 def _fuse_patches():
@@ -431,7 +468,7 @@ def mk_fuse(N, styles, pmax, fixed=None, opts=FUSE_OPTS_Q, req="all"):
         obs = check_values(e, new, nodes, rq, "fuse")
         return obs, check_depmap(e, new, deps, "fuse")
 
-    return _with_e2e(f"fuse[{_tag(N, styles, fixed, ',req=' + req)},params<={pmax}]", setup, run, lambda *a: (call(*a)[0], a[0], a[1]),
+    return _with_e2e(f"{_name('fuse', styles)}[{_tag(N, styles, fixed, ',req=' + req)},params<={pmax}]", setup, run, lambda *a: (call(*a)[0], a[0], a[1]),
                      patches=_fuse_patches)
 
 
@@ -587,7 +624,7 @@ def mk_substitute(N, styles, fixed=None):
 
 CLASH_FORMS = (("k0", "k2", "k0-k2", "other"),
                (("inc-123", 0), ("add-456", 0), ("inc-add-456", 0), ("other-789", 0)))
-_PERMS = ((0, 1, 2), (0, 2, 1), (1, 0, 2), (1, 2, 0), (2, 0, 1), (2, 1, 0))
+_PERMS = ((0, 1, 2), (2, 1, 0), (1, 0, 2))
 
 
 def mk_name_clash(fn, pmax=4):
@@ -664,16 +701,27 @@ def mk_name_clash(fn, pmax=4):
 # ---------------------------------------------------------------------------------------------------------------
 
 
+def tuplearg_family(pmax):
+    """legacy graphs (N=3) in which every task with a dependency holds its first dependency inside a non-call tuple argument.
+    `dependencies` is never supplied here (the documented way to obtain it is cull / get_dependencies, whose reading of such tuples is
+    the very thing in question), so the functions compute it themselves."""
+    return [mk_cull(3, "p"),
+            mk_inline(3, "p", opts=((True, None), (False, None))),
+            mk_inline_functions(3, "p", opts=((False, None),)),
+            mk_fuse_linear(3, "p", opts=((0, None, False), (1, None, True))),
+            mk_fuse(3, "p", pmax, opts=((0, None, True),))]
+
+
 def obligations(tier):
     obs = []
-    if tier == "quick":
+    if tier in ("quick", "thorough"):
         obs.append(mk_cull(3, "t"))
         obs.append(mk_cull(2, "ln"))
         obs.append(mk_inline(3, "tln"))
         obs.append(mk_inline_functions(3, "tn"))
         D3 = {0: "d", 1: "t", 2: "t", 3: "t"}
         obs.append(mk_fuse_linear(3, "tu"))
-        obs.append(mk_fuse_linear(4, "t", fixed=D3, opts=((0, None, False), (2, "list", True))))
+        obs.append(mk_fuse_linear(4, "t", fixed=D3, opts=((0, None, False),)))
         obs.append(mk_fuse(3, "t", 4))
         obs.append(mk_fuse(3, "u", 4, opts=((0, None, False),)))
         obs.append(mk_fuse(4, "t", 4, fixed=D3, opts=((0, None, False),)))
@@ -682,10 +730,10 @@ def obligations(tier):
         obs.append(mk_node_fuse(3, "TN"))
         obs.append(mk_substitute(3, "TLN"))
         obs += [mk_name_clash(fn) for fn in ("fuse_linear", "fuse", "fuse_linear_task_spec")]
-    else:
+        obs += tuplearg_family(4)
+    if tier == "thorough":
         D4 = {0: "d", 1: "t", 2: "t", 3: "t", 4: "t"}
         obs.append(mk_cull(4, "t"))
-        obs.append(mk_cull(3, "ln"))
         obs.append(mk_inline(3, "tln", sinks=True))
         obs.append(mk_inline(4, "tl"))
         obs.append(mk_inline_functions(3, "tln", opts=((False, None), (True, None), (False, "set"), (True, "set"))))
@@ -694,14 +742,12 @@ def obligations(tier):
         obs.append(mk_fuse_linear(4, "tu", req="small"))
         obs.append(mk_fuse_linear(5, "t", fixed=D4, opts=((0, None, False), (2, "list", True)), req="small"))
         obs.append(mk_fuse(3, "tlun", 5, opts=FUSE_OPTS_T))
-        obs.append(mk_fuse(4, "t", 5, opts=FUSE_OPTS_Q[:3], req="small"))
+        obs.append(mk_fuse(4, "t", 5, opts=FUSE_OPTS_Q, req="small"))
         obs.append(mk_fuse(5, "t", 5, fixed=D4, opts=((0, None, False),), req="small"))
         obs.append(mk_fuse_linear_task_spec(4, "TL"))
         obs.append(mk_fuse_linear_task_spec(5, "T", fixed={0: "D", 1: "T", 2: "T", 3: "T", 4: "T"}, req="small"))
         obs.append(mk_resolve_aliases(4, "TL"))
         obs.append(mk_node_fuse(3, "TLN"))
         obs.append(mk_node_fuse(4, "T"))
-        obs.append(mk_substitute(3, "TLN"))
         obs.append(mk_substitute(4, "TN"))
-        obs += [mk_name_clash(fn, 5) for fn in ("fuse_linear", "fuse", "fuse_linear_task_spec")]
     return obs
